@@ -4,51 +4,91 @@ Mechanism: breezy/reconfigure.py Reconfigure (__init__ discovery, _plan_changes,
 _set_use_shared, _check, _select_bind_location, apply), breezy/upgrade.py
 (upgrade / smart_upgrade / Convert), breezy/bzr/bzrdir.py ConvertMetaToMeta
 (+ the repository / branch / working-tree converters it drives:
-CopyConverter, Converter5to6/6to7/7to8, Converter4to5 / 4or5to6).
+CopyConverter, Converter5to6/6to7/7to8, Converter3to4 / 4to5 / 4or5to6).
 
 Model: Model/C52.lean.  A location = layout (working tree?, local branch
 bound/unbound | branch reference, local repository | shared repository above |
-none, format tag) + observation (branch tip, history code, tags, tree state =
-content code + pending-change flag) + what is known about the bind location
-(master tip / tags, remembered locations).  `plan` is the literal
-`_plan_changes` / `_set_use_shared` flag computation, `reconfigure` = the
-to_* factory + `_check` + `apply`, `convert` changes the format tag only.
+none, format tag) + observation (branch tip, history code, tag dictionary, tree
+state = content code + pending-change flag) + what is known about the bind
+location (found?, tip / history / tags of the branch there).  `plan` is the
+literal `_plan_changes` / `_set_use_shared` flag computation, `reconfigure` = the
+to_* factory + `_check` + `apply` stage by stage; replacing the local branch by a
+reference makes the referenced branch's tip / history the location's and merges
+the tags (`mergeTo` = `_reconcile_tags`): unforced, `_check` refuses that unless
+the tips agree.  `upgrade` = `Convert.convert`'s loop around
+`ConvertMetaToMeta.convert`: which converters run, in which order, in how many
+passes, and what each does to the branch / tree data (revision-history ->
+last-revision, last-revision + pending-merges -> dirstate parents).
 
-T2 (the substance): generated histories (commits, a merge, tags, ghosts-free)
-with a dirty or clean working tree are built in every layout x repository
-placement that real breezy can create, and
+T2 (the substance): generated histories (commits, a merge, tags incl. tags on
+one side only, tags on absent revisions, conflicting tags) with a clean or dirty
+working tree (edit, add, rename, chmod, unknown, pending merge, recorded conflict,
+missing file) are built in every layout x repository placement that real breezy
+can create, with the branch at the remembered location in sync, ahead or behind,
+and
  * every ordered (source layout, target) pair is driven through the real
-   Reconfigure factory + apply() (quick tier: a seed-rotated subset, thorough:
-   all), then chains of 2..4 reconfigurations;
- * every creatable source format (knit, pack-0.92, 1.9, 2a, + rich-root
-   variants; working tree formats 4/5/6) is upgraded to the default through
-   upgrade.upgrade();
-the outcome (ok / error kind), the resulting layout and the observation
-(tip, revision -> testament sha1 map of the whole ancestry, tags, tree dump,
-status incl. pending merges) are compared with the model and, independently,
-with the observation before (oracle).
-Oracle (no model): tip, revno, testament map and tags never change; a working
-tree that exists before and after a step has the same entries, contents, exec
-bits, file ids, iter_changes output, parents and unknowns; a tree with pending
-changes is never removed (unless forced); a created tree is the clean tree of
-the tip; a successful to_X yields layout X; a successful upgrade yields the
-default formats; the location can always be opened afterwards.
+   Reconfigure factory + apply() (quick tier: a seed-rotated third + a fixed
+   destructive core, formats rotating; thorough: all), a fixed set of forced /
+   refused replacements by an out-of-sync reference on every run, then random
+   chains of 2..4 reconfigurations (15 % forced, 15 % out of sync);
+ * every creatable source format (knit, pack-0.92, 1.x, 2a, rich-root / subtree
+   variants; working tree formats 3-6, branch formats 5-8) is upgraded to the
+   default through upgrade.upgrade() EVERY run, from rotating source kinds: tree,
+   checkout (master first / alone), branch without tree, lightweight checkout
+   (alone: the referenced branch is converted through the reference; or after its
+   master), shared repository with two branches; every Convert is logged (control
+   dir, component formats before / after, converter calls per pass);
+the outcome (ok / error kind), the resulting layout, tree state, tip (original /
+the reference's) and tag values per step, and per Convert the converter sequence
+per pass, resulting formats, last_revision_info and tree parents are compared
+with the model and, independently, with the observation before (oracle).
+Oracle (no model): tip, revno, testament map never change — except after a FORCED
+replacement of the branch by a reference to a branch with another tip, where they
+must become exactly that branch's; an unforced replacement by an out-of-sync
+reference is a violation; every tag keeps its definition and every new tag comes
+from the referenced branch; a working tree that exists before and after a step
+has the same entries, contents, exec bits, file ids, iter_changes output,
+parents, unknowns and conflicts; a tree with pending changes is never removed
+(unless forced); the revision of every tree parent (basis, pending merges) is
+still in the branch's repository; a created tree is the clean tree of the tip
+(its parent is the tip); a successful to_X yields layout X; a successful upgrade
+yields the default formats and keeps tip, testaments, tags, remembered locations,
+tree dump and status (also of a second branch in the shared repository); the
+location can always be opened afterwards.
 
-No violation of the property was found on the unchanged tree.  Observations
-(not violations, see the report): a failed to_checkout on a tree-less branch
-without remembered location leaves the freshly created working tree behind
-(modelled: partial_apply_witness); to_standalone on a lightweight checkout
-creates a repository of the default format rather than the branch's; on
-BzrBranch5 (knit-era) branches _select_bind_location raises UpgradeRequired.
+Findings on the unchanged tree (family-tagged, patches + repro in
+/var/tmp/imp-C51C52/c52): (1) reconfigure-pending-merge-revision-not-copied (and
+reconfigure-tree-basis-revision-not-copied for a tree that is not at the branch
+tip) — to_standalone / to_tree / to_checkout / to_lightweight_checkout fetch only
+the branch tip, the revisions of the working tree's pending merges / basis are
+left in the old repository (the next commit records a ghost); (2) reconfigure-reference-tag-conflict-local-
+definition-dropped — to_lightweight_checkout merges the local tags into the
+referenced branch and silently drops a local definition that conflicts.  The
+model has a variant flag (tagCheck, probed on the code under test) for (2).
+Observations (not violations of the property): a failed to_checkout on a
+tree-less branch without remembered location leaves the freshly created working
+tree behind (partial_apply_witness); to_standalone on a lightweight checkout
+creates a repository of the default format; BzrBranch5 branches raise
+UpgradeRequired in _select_bind_location; Converter5to6 turns "no push location"
+into the empty string (which _select_bind_location then returns as a location);
+upgrading a lightweight checkout converts the REFERENCED branch although upgrade
+says it must be upgraded separately; UnsyncedBranches.__init__ passes the
+controldir as message, str() of the error raises TypeError.
 
-Mutants this was built against (scratch worktree): _check ignoring
-has_changes (oracle: tree with pending changes destroyed); create_branch
-without set_last_revision_info (oracle: tip null:); tags not merged from the
-referenced branch (oracle: tags lost); new repository not filled by fetch
-(oracle: location cannot be opened, NoSuchRevision); to_tree planning
-want_bound=True (oracle: layout is not the one asked for + model mismatch);
-Converter5to6 writing revno-1 (oracle: upgrade changed revno).  Harmless
-rewrite kept clean: tree flags of _plan_changes computed by boolean expressions.
+Mutants (scratch worktree): _check ignoring has_changes (oracle: tree with
+pending changes destroyed); create_branch without set_last_revision_info (oracle:
+tip null:); new repository not filled by fetch (oracle: cannot be opened);
+to_tree planning want_bound=True (oracle: layout + model mismatch); Converter5to6
+writing revno-1 (oracle: upgrade changed revno).  Improvement round:
+_check never raising UnsyncedBranches (oracle: unforced replacement by a
+reference with another tip); tags.merge_to into the reference dropped (oracle:
+local-only tag lost); Converter5to6 not copying the parent location (oracle:
+locations); Convert's `while needs_format_conversion` -> `if` (oracle: knit tree
+left at format 4, + model mismatch on the passes); Converter3to4 dropping the
+pending merges (oracle: status/parents); branch converter chain spread over two
+passes (harmless for the result: T2 tie break on the converter sequence only).
+Harmless rewrites kept clean: tree flags of _plan_changes as boolean expressions,
+isinstance -> type identity in ConvertMetaToMeta.
 """
 import os
 import random
@@ -58,23 +98,27 @@ from vlib import env
 
 THEOREMS = ["reconfigure_keeps_any", "convert_preserves_obs", "reconfigure_composes", "forced_path_tip",
             "forced_synced_preserves", "reconfigure_ok_layout", "already_iff_layout", "refusal_changes_nothing",
-            "force_destroys_witness", "force_moves_tip_witness", "tag_conflict_witness", "partial_apply_witness",
+            "force_destroys_witness", "force_moves_tip_witness", "tag_conflict_witness", "tagcheck_refuses_conflict",
+            "partial_apply_witness",
             "upgrade_preserves_obs", "upgrade_reaches_target", "upgrade_uptodate_iff", "knit_two_pass_witness",
             "branch_downgrade_witness"]
-RULE = ("case = (history script, dirty flag, source layout x repository placement, target | chain of targets | source "
-        "format); non-trivial = the operation succeeds and changes the layout / format; distinct by (layout, target(s), "
-        "dirty, history shape)")
+RULE = ("case = (history script, dirty kinds, tag / sync knobs, source layout x repository placement, target | chain of targets "
+        "(forced?) | source format x source kind); non-trivial = the operation succeeds and changes the layout / format; "
+        "distinct by (layout, target(s), dirty operations, knobs, history shape)")
 ASSUMPTIONS = [
-    "the master / parent branch named by the remembered location carries the same tags as the local branch (it is "
-    "sprouted from it or is its origin): Reconfigure merges tags into a branch reference target, conflicts are not generated",
+    "theorems about tags assume the local and the referenced branch define no tag differently (NoConflict, decidable); the "
+    "conflicting case is generated, modelled (tag_conflict_witness / tagcheck_refuses_conflict) and reported as a finding",
     "reconfiguration chains use formats whose branch supports old-bound locations and tags (2a, 1.9, pack-0.92); "
     "knit-era formats appear in the upgrade stream only",
     "a cross-format fetch refused with IncompatibleRepositories (repository created by to_standalone for a lightweight "
     "checkout has the default format) is an excluded, counted outcome: nothing changes",
 ]
 TRUSTED = [
-    "history is abstracted to a code in the model: that fetch / the repository converters keep every revision's testament is "
-    "exactly what the correspondence run measures (testament sha1 of the whole ancestry before and after), not what is proved",
+    "history is abstracted to a code in the model (a function of the tip: RefInv): that fetch / the repository converter keep "
+    "every revision's testament is what the correspondence run measures (testament sha1 of the whole ancestry before and "
+    "after), not what is proved; the working tree's content is a code as well",
+    "repository format classes are compared by identity in the model (the code uses isinstance); ConvertMetaToColo and "
+    "pre-metadir control directories are outside the upgrade model (counted convert-not-modelled)",
     "the model's view of a location (tree?, bound?, reference?, repository placement, remembered location, in sync) is read "
     "from the real objects by the harness, independently of Reconfigure",
 ]
@@ -139,7 +183,8 @@ def flags_of(seedt):
     """optional 7th element of a location seed: comma separated knobs
     pm = a pending merge in the dirty tree, cf = a recorded conflict, ms = a versioned file missing from disk,
     xt = the branch at the bind location has a tag the local branch lacks, ct = ... a DIFFERENT definition of tag0,
-    gt = a tag pointing to a revision that is absent, bh = the branch at the bind location is one revision BEHIND,
+    gt = a tag pointing to a revision that is absent, lt = a tag only the local branch has,
+    bh = the branch at the bind location is one revision BEHIND,
     b2 = a second branch in the shared repository"""
     return set(x for x in (seedt[6].split(",") if len(seedt) > 6 else []) if x)
 
@@ -247,6 +292,8 @@ def build_location(seedt):
     if local_branch.supports_tags():
         if "gt" in flags:
             local_branch.tags.set_tag("ghosttag", b"absent-revision-%d" % idx)
+        if "lt" in flags and source in ("tree", "branch"):
+            local_branch.tags.set_tag("localtag", revs[0])                  # (not bound: the master does not get it)
         if "ct" in flags and source != "lightweight-checkout":
             local_branch.tags.set_tag("tag0", revs[-1])                     # (a bound branch sets it on its master too)
         if info["parent"]:
@@ -517,6 +564,26 @@ def show_tags(tags, names, vals):
     return ",".join(out + ["+" + x for x in extra]) or "-"
 
 
+_VARIANT = []
+
+
+def probe_variant():
+    """which behaviour does the code under test have: does an unforced to_lightweight_checkout refuse to replace a branch
+    by a reference to a branch that defines one of its tags differently ("T"), or does it go ahead ("F", the unchanged
+    code)?  Selects the model variant; the ORACLE does not depend on it."""
+    if not _VARIANT:
+        from breezy.controldir import ControlDir
+        info = build_location((0, 0, "tree", False, False, "2a", "ct"))
+        try:
+            factory("lightweight-checkout")(ControlDir.open(info["path"])).apply(False)
+            _VARIANT.append("F")
+        except Exception as e:  # noqa
+            _VARIANT.append("T" if type(e).__name__ == "UnsyncedBranches" else "F")
+        finally:
+            shutil.rmtree(info["root"], ignore_errors=True)
+    return _VARIANT[0]
+
+
 def check_chain(ctx, arg, res):
     seedt, targets, force, unsync = arg
     case = dict(seed=list(seedt), targets=list(targets), force=force, unsync=unsync)
@@ -564,6 +631,9 @@ def check_chain(ctx, arg, res):
             lost = sorted(n for n, v in prev["tags"].items() if o["tags"].get(n) != v)
             for n in lost:
                 conflict = n in reftags and reftags[n] != prev["tags"][n] and o["tags"].get(n) == reftags[n]
+                if conflict and force:
+                    ctx.count("forced-switch-drops-conflicting-tag")        # the user overrode _check
+                    continue
                 ctx.violation(case, "to_lightweight-checkout changed tag %r: %r -> %r" % (n, prev["tags"][n], o["tags"].get(n)),
                               family="reconfigure-reference-tag-conflict-local-definition-dropped" if conflict else None)
             for n, v in o["tags"].items():
@@ -589,13 +659,23 @@ def check_chain(ctx, arg, res):
             bad_conflicts = [c for c in st["conflicts"] if not (left_behind and c[0] == "duplicate")]
             if st["changes"] or bad_conflicts or st["parents"] != ([o["tip"]] if o["tip"] != "null:" else []):
                 ctx.violation(case, "to_%s created a working tree that is not the clean tree of the tip" % s["target"])
-        newghost = [p for p in o["ghost_parents"] if p not in prev["ghost_parents"] and p in (prev["status"] or {}).get("parents", [])]
+        pparents = (prev["status"] or {}).get("parents", [])
+        newghost = [p for p in o["ghost_parents"] if p not in prev["ghost_parents"] and p in pparents]
+        if newghost and force and switch and o["tip"] != prev["tip"] and newghost == pparents[:1]:
+            # forced replacement by a reference to a branch that lacks the old tip: the kept tree's basis is not in
+            # that branch's repository (the user overrode UnsyncedBranches)
+            ctx.count("forced-switch-leaves-tree-basis-behind")
+            newghost = []
         if newghost:
-            # a pending merge is still listed, but the revision it names is gone from the branch's repository
-            ctx.violation(case, "to_%s (%s): the revision of pending merge %r is no longer in the repository of the branch"
-                          % (s["target"], s["out"], newghost),
-                          family="reconfigure-pending-merge-revision-not-copied"
-                          if len(prev["status"]["parents"]) > 1 and set(newghost) <= set(prev["status"]["parents"][1:]) else None)
+            # a parent of the kept working tree is still listed, but the revision it names is gone from the repository of
+            # the branch: a pending merge, or the basis of a tree that was not at the branch tip
+            fam = None
+            if len(pparents) > 1 and set(newghost) <= set(pparents[1:]):
+                fam = "reconfigure-pending-merge-revision-not-copied"
+            elif newghost == pparents[:1] and pparents[0] != prev["tip"]:
+                fam = "reconfigure-tree-basis-revision-not-copied"
+            ctx.violation(case, "to_%s (%s): the revision of tree parent %r is no longer in the repository of the branch"
+                          % (s["target"], s["out"], newghost), family=fam)
         if s["out"] not in ("ok", "E:NoBindLocation") and s["state"] != prev_state:
             ctx.count("error-changed-layout:%s" % s["out"])
         if s["out"] == "ok":
@@ -611,17 +691,29 @@ def check_chain(ctx, arg, res):
         impl.append("%s:%s:%s:%s:%s" % (s["out"], s["state"], tree_state(obs0, o), tipc, show_tags(o["tags"], names, vals)))
         prev = o
         prev_state = s["state"]
-    line = "chain %s %s %s %s %s" % ("T" if force else "F", ",".join(TCODE[t] for t in targets), res["state0"],
+    line = "chain %s %s %s %s %s %s" % (probe_variant(), "T" if force else "F", ",".join(TCODE[t] for t in targets), res["state0"],
                                      enc_tags(obs0["tags"], names, vals), enc_tags(ref0["tags"], names, vals) if ref0 else "-")
+    if obs0["status"] and obs0["status"]["parents"] == [obs0["tip"]]:
+        res["state0"] += " U"
+    else:
+        ctx.count("start:tree-absent-or-not-at-tip")
     return case, line, " ".join(impl)
 
 
 def canon_model(reply, state0):
-    """a re-created clean tree of the ORIGINAL tip is indistinguishable from the original tree when that was clean"""
+    """a re-created clean tree of the ORIGINAL tip is indistinguishable from the original tree when that was clean and
+    up to date (state0 ends in "U" then; an out-of-date lightweight checkout is TreeInv-false: its re-created tree differs)"""
     st = state0.split(" ")
-    if st[0] == "T" and st[1] == "F":
+    if st[0] == "T" and st[1] == "F" and st[-1] == "U":
         return " ".join(x.replace(":clean:o:", ":kept:o:") for x in reply.split(" "))
     return reply
+
+
+def corpus_cases():
+    """corpus/C52/*.json: past failures / false alarms / findings, run first on every run"""
+    import glob
+    import json
+    return [json.load(open(f)) for f in sorted(glob.glob(os.path.join(env.VERIF, "corpus", "C52", "*.json")))]
 
 
 def scenarios(ctx):
@@ -638,7 +730,7 @@ def scenarios(ctx):
     if not ctx.thorough():
         # rotate by seed: a third of the pairs per run, every pair within three consecutive seeds
         pairs = [p for i, p in enumerate(pairs) if (i + ctx.seed) % 3 == 0]
-    jobs = []
+    jobs = [(tuple(c["seed"]), c["targets"], c["force"], c.get("unsync", False)) for c in corpus_cases() if "targets" in c]
     idx = 0
     if not ctx.thorough():
         # the transitions that destroy or re-create something run on every seed
@@ -649,7 +741,7 @@ def scenarios(ctx):
     fmts = ["2a", "2a", "1.9", "pack-0.92"]     # (knit-era branches lack old-bound locations: upgrade stream only)
 
     def flags(dirty, p=0.3):
-        fl = [f for f in ("xt", "gt") if rng.random() < p * 0.7]
+        fl = [f for f in ("xt", "gt", "lt") if rng.random() < p * 0.7]
         if dirty:
             fl += [f for f in ("pm", "cf", "ms") if rng.random() < p]
         if rng.random() < p * 0.3:
@@ -664,15 +756,17 @@ def scenarios(ctx):
                       flags(dirty)), [t], False, rng.random() < 0.15))
     # every run: forced and refused replacements of a branch by a reference to a branch that has moved on / lags behind,
     # with and without a working tree to re-create, then back again
-    for k, (source, shared, dirty, force, fl, ts) in enumerate([
-            ("checkout", False, True, True, "", ["lightweight-checkout", "tree"]),
-            ("tree", True, False, True, "bh", ["lightweight-checkout", "branch", "tree"]),
-            ("branch", False, False, True, "xt", ["lightweight-checkout", "checkout"]),
-            ("checkout", True, True, False, "", ["lightweight-checkout", "branch"]),
-            ("tree", False, True, False, "bh,xt", ["lightweight-checkout", "checkout", "lightweight-checkout"]),
-            ("tree", rng.random() < 0.5, True, True, "pm", ["branch", "tree", "lightweight-checkout"])]):
+    for k, (source, shared, dirty, force, unsync, fl, ts) in enumerate([
+            ("checkout", False, True, True, True, "", ["lightweight-checkout", "tree"]),
+            ("tree", True, False, True, False, "bh", ["lightweight-checkout", "branch", "tree"]),
+            ("branch", False, False, True, True, "xt", ["lightweight-checkout", "checkout"]),
+            ("checkout", True, True, False, True, "", ["lightweight-checkout", "branch"]),
+            ("tree", False, True, False, False, "bh,xt", ["lightweight-checkout", "checkout", "lightweight-checkout"]),
+            ("tree", rng.random() < 0.5, True, True, True, "pm", ["branch", "tree", "lightweight-checkout"]),
+            # in sync, tags on both sides that the other lacks: merged into the referenced branch, kept when coming back
+            ("tree", rng.random() < 0.5, True, False, False, "lt,xt,pm", ["lightweight-checkout", "tree"])]):
         idx += 1
-        jobs.append(((ctx.seed, idx, source, shared, dirty, fmts[(k + ctx.seed) % 4], fl), ts, force, "bh" not in fl))
+        jobs.append(((ctx.seed, idx, source, shared, dirty, fmts[(k + ctx.seed) % 4], fl), ts, force, unsync))
     for _ in range(ctx.pick(10, 120)):
         idx += 1
         source, shared, dirty = rng.choice(combos)
@@ -924,7 +1018,8 @@ def check_upgrade(ctx, arg, res):
 # --------------------------------------------------------------------------
 
 def upgrade_jobs(ctx):
-    ujobs = []
+    ujobs = [(tuple(c["seed"]), None if c["upgrade_to"] == "default" else c["upgrade_to"]) for c in corpus_cases()
+             if "upgrade_to" in c]
     if ctx.thorough():
         fmts = UPGRADE_FORMATS
     else:
@@ -955,6 +1050,7 @@ def upgrade_jobs(ctx):
 
 
 def run(ctx):
+    ctx.extra["model_variant_tagCheck"] = probe_variant()
     jobs = scenarios(ctx)
     results = ctx.pmap(run_chain, jobs)
     cases, lines, impls, states = [], [], [], []
